@@ -789,7 +789,9 @@ fn main() {
     }
 
     // degenerate advertised limits (the device does not enforce them: the host must cope)
-    let degenerate: Vec<u32> = vec![0, 1, 11, 12, 13, 19, 20, 21, 23, 24, 65535, 65536, u32::MAX - 1, u32::MAX];
+    // 12 + k*65536 / 20 + 65536: advertised lengths whose payload capacity is a multiple of 2^16 (a
+    // capacity narrowed to 16 bits becomes 0: seeded change C07-r4-seed1)
+    let degenerate: Vec<u32> = vec![0, 1, 11, 12, 13, 19, 20, 21, 23, 24, 65535, 65536, 65547, 65548, 65556, 131084, u32::MAX - 1, u32::MAX];
     for mc in &degenerate {
         for ma in &degenerate {
             let ops = vec![
